@@ -727,10 +727,15 @@ PRIM23 = ["CNOT", "CZ", "SWAP", "Toffoli"]
 
 
 class RealTerms:
-    def __init__(self, subs):
+    """`repo`: the repository the user subs are registered in (None: the library's default repository).  `decoy`: the same op
+    is ALSO registered in the default repository, with another body - the custom repository's definition is the program's."""
+
+    def __init__(self, subs, repo=None, decoy=False):
         from quri_parts.qsub.namespace import NameSpace
 
         self.subs = subs
+        self.repo = repo
+        self.decoy = decoy
         self.cache = {}
         _uniq[0] += 1
         self.ns = NameSpace(f"c19w{_uniq[0]}")
@@ -761,7 +766,14 @@ class RealTerms:
                 elif ph:
                     b.add_phase(ph * math.pi / 4)
                 o = Op(Ident(self.ns, f"W{t[1]}"), nargs)
-                default_repository().register_sub(o, b.build())
+                (self.repo if self.repo is not None else default_repository()).register_sub(o, b.build())
+                if self.repo is not None and self.decoy:
+                    d = SubBuilder(nargs)
+                    d.add_op(std.X, (d.qubits[0],))
+                    d.add_op(std.T, (d.qubits[-1],))
+                    if nargs >= 2:
+                        d.add_op(std.CNOT, (d.qubits[1], d.qubits[0]))
+                    default_repository().register_sub(o, d.build())
                 self.cache[t[1]] = o
             return self.cache[t[1]]
         if k == "inv":
@@ -771,7 +783,7 @@ class RealTerms:
         return std.MultiControlled(self.op(t[1]), t[2], t[3])
 
 
-def real_unitary(term, subs):
+def real_unitary(term, subs, repo=None, decoy=False, entry="compile_sub"):
     """compile + evaluate with the real code; returns (matrix on the term's qubits, leakage) or raises"""
     import numpy as np
 
@@ -783,11 +795,21 @@ def real_unitary(term, subs):
     from quri_parts.qsub.primitive import AllBasicSet
     from quri_parts.qsub.sub import SubBuilder
 
-    rt = RealTerms(subs)
+    rt = RealTerms(subs, repo, decoy)
     a = QD.arity(term, subs)
     b = SubBuilder(a)
     b.add_op(rt.op(term), b.qubits)
-    ms = compile_sub(b.build(), AllBasicSet)
+    if repo is None:
+        ms = compile_sub(b.build(), AllBasicSet)
+    elif entry == "compile":
+        from quri_parts.qsub.compile import compile
+        from quri_parts.qsub.op import Ident, Op
+
+        eop = Op(Ident(rt.ns, "ENTRY"), a)
+        repo.register_sub(eop, b.build())
+        ms = compile(eop, AllBasicSet, repo)
+    else:
+        ms = compile_sub(b.build(), AllBasicSet, repo) if entry == "compile_sub" else compile_sub(b.build(), AllBasicSet, repository=repo)
     circ = Evaluator(QURIPartsEvaluatorHooks()).run(ms)
     n = max(circ.qubit_count, a)
     if n > 9:
@@ -858,7 +880,7 @@ def gen_term(rng, subs, depth, under_ctl, max_arity):
     return ("user", uid)
 
 
-def check_term(ctx, term, subs, tol=1e-7):
+def check_term(ctx, term, subs, tol=1e-7, **how):
     """None if the real code implements the oracle's unitary (up to a global phase), else a description"""
     from oracle import dense
     from oracle import qsub_dense as QD
@@ -868,7 +890,7 @@ def check_term(ctx, term, subs, tol=1e-7):
     except QD.NotClean:
         return "skip"
     try:
-        got, leak = real_unitary(term, subs)
+        got, leak = real_unitary(term, subs, **how)
     except Exception as e:  # noqa: BLE001
         return f"raises {type(e).__name__}: {str(e)[:120]}"
     if got is None:
@@ -1092,6 +1114,123 @@ def wrapper_validate(ctx: Ctx, n_random: int):
             ctx.count("wrapper_keys", report_bad(ctx, t, subs, r))
     ctx.evaluations += n_eval
     ctx.extra["oracle_wrapper_evaluations"] = n_eval
+
+
+_STD_ENTRIES = []
+
+
+def custom_repository(drop_specific=False):
+    """a NON-default SubRepository carrying the library's own resolvers (every registration of the std namespace, in the
+    library's order); `drop_specific`: without inverse_controlled_resolver / inverse_multicontrolled_resolver, so that
+    Inverse(Controlled(.)) goes through the generic inverse_sub_resolver"""
+    from quri_parts.qsub.lib import std
+    from quri_parts.qsub.lib.std import inverse as I
+    from quri_parts.qsub.resolve import SubRepository, default_repository
+
+    if not _STD_ENTRIES:
+        for base, lst in default_repository()._mapping.items():
+            if base[0] == std.NS or (base[0].parent is not None and base[0].parent == std.NS):
+                for res, cond in lst:
+                    _STD_ENTRIES.append((base, res, cond))
+    skip = (getattr(I, "inverse_controlled_resolver", None), getattr(I, "inverse_multicontrolled_resolver", None)) if drop_specific else ()
+    R = SubRepository()
+    for base, res, cond in _STD_ENTRIES:
+        if any(res is x for x in skip if x is not None):
+            continue
+        R.register_sub_resolver(base, res, cond)
+    return R
+
+
+SAFE1 = ["X", "Y", "Z", "S", "Sdag", "T", "Tdag", "RY", "RZ", "Phase"]  # rows of the controlled table without a known defect
+
+
+def gen_custom_term(rng):
+    """wrappers (Inverse / Controlled / MultiControlled) at nesting depth 1-3 around a user sub F - possibly inside another
+    user sub G whose body applies a wrapper to F - over ops whose controlled rows are sound"""
+    from oracle import qsub_dense as QD
+
+    def prim(ar):
+        if ar >= 2 and rng.random() < 0.4:
+            return ("prim", rng.choice(["CNOT", "CZ", "SWAP"]), None), 2
+        name = rng.choice(SAFE1)
+        return ("prim", name, gen_angle_k(rng) if name in QD.PARAM else None), 1
+
+    subs = {}
+    nargs = rng.randint(1, 2)
+    ops = []
+    for _ in range(rng.randint(1, 3)):
+        t, ar = prim(nargs)
+        ops.append((t, tuple(rng.sample(range(nargs), ar))))
+    subs[0] = (nargs, 0, 0, ops)
+    core = ("user", 0)
+    if rng.random() < 0.35:  # G: a user sub that applies a wrapper to F and a primitive
+        w = rng.choice(["inv", "ctl"])
+        inner = (w, core)
+        gar = nargs + (1 if w == "ctl" else 0)
+        gops = [(inner, tuple(rng.sample(range(gar), gar)))]
+        t, ar = prim(gar)
+        gops.insert(rng.randint(0, 1), (t, tuple(rng.sample(range(gar), ar))))
+        subs[1] = (gar, 0, 0, gops)
+        core = ("user", 1)
+    term = core
+    for _ in range(rng.randint(1, 3)):
+        ar = QD.arity(term, subs)
+        r = rng.random()
+        if r < 0.45:
+            term = ("inv", term)
+        elif r < 0.85 and ar < 4:
+            term = ("ctl", term)
+        elif ar < 3:
+            bits = rng.randint(1, 2)
+            term = ("mctl", term, bits, rng.randrange(1 << bits))
+        else:
+            term = ("inv", term)
+    return term, subs
+
+
+def custom_repo_wrappers(ctx: Ctx, n_cases: int):
+    """the same wrapper nestings compiled against a NON-default repository: user ops registered only there, or registered in
+    both with DIFFERENT bodies (the custom one is the program's).  Judged against the dense oracle built from the custom
+    repository's definitions; a mismatch that the default repository shows as well is handed to the ordinary wrapper report."""
+    from oracle import qsub_dense as QD
+
+    rng = ctx.rng
+    fixed = [(("inv", ("inv", ("user", 0))), {0: (1, 0, 0, [(("prim", "T", None), (0,)), (("prim", "RZ", 5), (0,))])}),
+             (("inv", ("inv", ("inv", ("user", 0)))), {0: (2, 0, 0, [(("prim", "S", None), (1,)), (("prim", "CNOT", None), (1, 0))])}),
+             (("inv", ("ctl", ("user", 0))), {0: (1, 0, 0, [(("prim", "T", None), (0,)), (("prim", "Y", None), (0,))])}),
+             (("ctl", ("inv", ("user", 0))), {0: (1, 0, 0, [(("prim", "T", None), (0,)), (("prim", "RY", 3), (0,))])}),
+             (("ctl", ("ctl", ("user", 0))), {0: (1, 0, 0, [(("prim", "S", None), (0,)), (("prim", "Z", None), (0,))])}),
+             (("inv", ("mctl", ("user", 0), 2, 1)), {0: (1, 0, 0, [(("prim", "T", None), (0,))])}),
+             (("mctl", ("inv", ("user", 0)), 2, 2), {0: (1, 0, 0, [(("prim", "Tdag", None), (0,)), (("prim", "Phase", 3), (0,))])})]
+    cases = [(t, sb, mode, drop) for t, sb in fixed for mode in ("only-custom", "both-different") for drop in (False, True)]
+    for _ in range(n_cases):
+        t, sb = gen_custom_term(rng)
+        cases.append((t, sb, rng.choice(["only-custom", "both-different", "both-different"]), rng.random() < 0.4))
+    try:
+        custom_repository()
+    except Exception as e:  # noqa: BLE001 - a renamed private attribute: a correspondence difference, not a crash
+        ctx.disagree("custom-repository", {"what": "copying the std registrations"}, f"{type(e).__name__}: {e}", "SubRepository._mapping")
+        return
+    n_eval = 0
+    for t, sb, mode, drop in cases:
+        if QD.arity(t, sb) > 5:
+            continue
+        entry = rng.choice(["compile_sub", "compile_sub_kw", "compile"])
+        r = check_term(ctx, t, sb, repo=custom_repository(drop), decoy=(mode == "both-different"), entry=entry)
+        n_eval += 1
+        ctx.count("custom_repo", mode + (":generic-only-inverse" if drop else "") + ":" + ("ok" if r is None else "skip" if r == "skip" else "MISMATCH"))
+        if r in (None, "skip"):
+            continue
+        r0 = check_term(ctx, t, sb)
+        if r0 not in (None, "skip"):
+            ctx.count("wrapper_keys", report_bad(ctx, t, sb, r0))  # not a question of the repository
+            continue
+        ctx.witness("custom-repository-wrapper", f"{QD.show(t, sb)} compiled against a custom SubRepository ({mode}: the user op is "
+                    + ("registered only there" if mode == "only-custom" else "also registered in the default repository with another body")
+                    + (", no specific Inverse(Controlled) resolver" if drop else "") + f", entry {entry}): {r}; the default repository gets it right",
+                    {"term": QD.show(t, sb), "custom_term": t, "custom_subs": {str(k): v for k, v in sb.items()}, "mode": mode,
+                     "drop_specific": drop, "entry": entry})
+    ctx.evaluations += n_eval
 
 
 def _has_ctl_inv_phase(t, subs, under_ctl, under_inv):
@@ -2501,6 +2640,12 @@ def run(ctx: Ctx, replay=None) -> int:
                     linker_history_check(ctx, 1, fixed=[inp["case_seed"]])
                 if isinstance(inp, dict) and inp.get("entry") == "entry-names":
                     entry_names_check(ctx, 1, fixed=[inp["case_seed"]])
+                if isinstance(inp, dict) and "custom_term" in inp:
+                    t, subs = _detuple(inp["custom_term"]), {int(k): _detuple(v) for k, v in inp["custom_subs"].items()}
+                    r = check_term(ctx, t, subs, repo=custom_repository(bool(inp.get("drop_specific"))),
+                                   decoy=(inp.get("mode") == "both-different"), entry=inp.get("entry", "compile_sub"))
+                    if r not in (None, "skip") and check_term(ctx, t, subs) in (None, "skip"):
+                        ctx.witness("custom-repository-wrapper", f"{inp.get('term')}: {r}", inp)
                 if isinstance(inp, dict) and "wrapper_term" in inp:
                     t, subs = _detuple(inp["wrapper_term"]), {int(k): _detuple(v) for k, v in inp["wrapper_subs"].items()}
                     r = check_term(ctx, t, subs)
@@ -2530,6 +2675,8 @@ def run(ctx: Ctx, replay=None) -> int:
         if not replay:
             wrapper_validate(ctx, ctx.n(500, 15000) * mult)
             transpiler_validate(ctx, ctx.n(60, 1000) * mult)
+            with ctx.timed("custom_repo"):
+                custom_repo_wrappers(ctx, ctx.n(150, 3000) * mult)
             with ctx.timed("rich_programs"):
                 rich_programs(ctx, ctx.n(200, 3000) * mult)
             if broken:
